@@ -142,12 +142,17 @@ class BaseComponent(Manager):
             # this component still knows the parent it is leaving
             self._do_prepare_unregister_complete(None, None)
 
-        if parent is not self:
-            # (may refuse, see registerChild(): nothing has been changed then)
-            parent.registerChild(self)
+        # (fire() from another thread takes this lock before it queues an
+        # event here: it either comes first, and the event is handed over
+        # with the queue, or it finds that this is no root any more)
+        with self._lock:
+            if parent is not self:
+                # (may refuse, see registerChild(): nothing has been changed
+                # then)
+                parent.registerChild(self)
 
-        self.parent = parent
-        self.root = parent.root
+            self.parent = parent
+            self.root = parent.root
 
         # Make sure that structure is consistent before firing event
         # because event may be handled in a concurrent thread.
